@@ -13,6 +13,10 @@ _parsers = {}
 def mods():
     """(celpy, celtypes, evaluation) — imported lazily, after loader.install()"""
     if not _mods:
+        import sys
+        from ..sym import loader
+        if loader.SRC not in sys.path:
+            sys.path.insert(0, loader.SRC)
         import celpy
         import celpy.celtypes
         import celpy.evaluation
